@@ -741,6 +741,10 @@ func (f *transformationCallable) updateEntries(item reflect.Value) error {
 		return err
 	}
 
+	// The object may come wrapped in an interface (e.g. when
+	// it is the result of a function call).
+	updates = jtypes.Resolve(updates)
+
 	if !jtypes.IsMap(updates) {
 		return newEvalError(ErrIllegalUpdate, f.updates, nil)
 	}
